@@ -99,6 +99,13 @@ def conform(impl, ref):
     Returns (pairs_visited, transitions_walked, maximal_paths, divergence or None).
     divergence = dict(path=[(pid,k)..], what=..., impl=canon, ref=canon)"""
     root = (0, ref["root"])
+    if 0 not in impl["states"]:
+        sched = ""
+        for e in impl.get("errors", []):
+            if "schedule=" in e:
+                sched = e.split("schedule=")[1].strip()
+        path = [tuple(int(x) for x in (t.split("/") + ["0"])[:2]) for t in sched.split(";") if t]
+        return 0, 0, 0, dict(path=path, what="the kernel crashed (%s)" % "; ".join(impl.get("errors", [])), impl="", ref="")
     seen = {root: None}
     order = deque([root])
     ntr = 0
